@@ -63,11 +63,13 @@ def cases(shard, nshards, seed, tier):
         ]
         if tier == "thorough":
             variants += [("annotator", ["{in}"]), ("lib3d", ["{in}", "1"]), ("annotator", ["-f", "--pml", "o.pml", "{in}"])]
+        if not inp.endswith(".gz") and os.path.getsize(os.path.join(core.REPO, inp)) < 250_000:
+            variants += [("writecif", ["{in}"])]
         if not inp.endswith(".gz"):
             variants += [("clashfinder", ["--ignore-occupancy", "--enable-molprobity-mode", "{in}"]), ("splitter", ["-o", "out", "-f", "mmCIF", "{in}"]), ("splitter", ["-o", "out", "-f", "PDB", "{in}"])]
             if inp.endswith(".cif"):
                 variants += [("transformer", ["{in}", "o.cif", "--category", "atom_site", "--replace", "auth_asym_id", "--values", "ABCDEFGHIJKLMNOPQRSTUVWXYZabcdefghijklmnopqrstuvwxyz0123456789"]),
-                             ("unifier", ["-o", "out", "-f", "PDB", "{in}", "{in}"])]
+                             ("unifier", ["-o", "out", "-f", "PDB", "{in}", "{in}"]), ("unifier", ["-o", "out", "-f", "mmCIF", "{in}", "{in}"])]
         for mod, argv in variants:
             if mine():
                 yield {"family": f"cli-{mod}", "module": mod, "argv": argv, "input": inp}
@@ -259,7 +261,7 @@ def run_case(case, rec):
         if diff:
             mech = f"{case['module']}:{diff['output'].split('/')[-1].split('_model_')[0]}:{'reordered' if diff['same-multiset-of-lines'] else 'content'}"
         rec.check("outputs.byte-identical-across-seeds", diff is None, lambda: {"case": case, "diff": diff}, mechanism=mech)
-        if case["module"] in ("lib2d", "lib3d", "external_conflicts") and base["<rc>"] == "0":
+        if case["module"] in ("lib2d", "lib3d", "external_conflicts", "writecif") and base["<rc>"] == "0":
             rec.check("outputs.inprocess-repeat-identical", "INPROCESS-REPEAT-EQUAL True" in base["<stdout>"], lambda: {"case": case})
         rec.count(f"runs", len(runs))
     finally:
